@@ -238,7 +238,11 @@ func (h *histGen) step() {
 		delete(h.fids, f)
 	default: // flush of a tag that is not outstanding, or an R-message as request
 		if r.Intn(2) == 0 {
-			h.add(fmt.Sprintf("Tflush %d", r.Intn(100)), "Rflush")
+			old := r.Intn(100)
+			if r.Intn(3) == 0 {
+				old = len(h.steps) + 1 // its own tag: a Tflush naming itself finds nothing to flush
+			}
+			h.add(fmt.Sprintf("Tflush %d", old), "Rflush")
 		} else {
 			h.add("Rclunk", "Rclunk")
 		}
